@@ -145,9 +145,9 @@ theorem tie_swift_enum_generics (U : UnicodeOps) (c : Swift.Cfg) (e : RustEnum) 
   exact ⟨swift_anon_generics U c e _ _ _ _ hs, swift_genericParams_names U c _ _⟩
 
 /-- … and the enum's case applies the helper to the same list -/
-theorem tie_swift_case_generics (c : Swift.Cfg) (e : RustEnum) (id : Id) (cs : List Str) (fs : List RustField)
+theorem tie_swift_case_generics {U : UnicodeOps} (c : Swift.Cfg) (e : RustEnum) (id : Id) (cs : List Str) (fs : List RustField)
     (st st' : Swift.St) (k : Swift.EnumCase)
-    (h : Swift.algebraicCase c e (.anonymousStruct id cs fs) st = .ok (k, st')) :
+    (h : Swift.algebraicCase U c e (.anonymousStruct id cs fs) st = .ok (k, st')) :
     k.payload = some ⟨c.pfx ++ Swift.anonymousStructName e id.original ++ genericSuffix (helperGens e fs), false⟩ := by
   unfold Swift.algebraicCase at h
   cases h; rfl
